@@ -272,7 +272,7 @@ def run_case(case):
             raise
         if alts:
             case.skip('all_excluded_with_sigma_clip_path_ambiguity')
-        if s_in.any() and tie_risk:
+        if (s_in | s_tie).any() and tie_risk:
             case.skip('all_excluded_with_clip_tie_within_rounding')
         if s_in.any():
             raise                       # the library refuses although documented-included boxes exist
@@ -479,8 +479,11 @@ def run_case(case):
         o_plain = scenes.outputs(scenes.construct(dict(spec_raw, mask_repr=scenes.PLAIN, cov_repr=scenes.PLAIN)))
         o_raw = scenes.outputs(scenes.construct(spec_raw)) if cov_nonbool else out
         for k in ('mesh', 'rmesh', 'npix', 'med', 'rmed', 'bkg', 'rms'):
-            m3 = dict(mech, coverage_mask_nonbool=True) if (cov_nonbool and k in ('bkg', 'rms')) else mech
-            case.close(o_raw[k], o_plain[k], 'mask_representation_' + k, mech=m3)
+            if cov_nonbool and k in ('bkg', 'rms'):
+                case.close(o_raw[k], o_plain[k], 'coverage_mask_nonbool_map_' + k,
+                           mech=dict(mech, coverage_mask_nonbool=True))
+            else:
+                case.close(o_raw[k], o_plain[k], 'mask_representation_' + k, mech=mech)
         case.note('mask_representation_cases')
         if data.dtype.kind != 'f' or bool(np.isfinite(data).all()):
             case.note('mask_representation_cases_data_all_finite')
